@@ -103,21 +103,21 @@ Proof.
   intros. apply EF_d. unfold OverlapSpec.fields, dfields. simpl. left. reflexivity.
 Qed.
 
-Definition ginv (s : fset) (obj : name) (g : groups) : Prop :=
+Definition ginv (Q : fentry -> Prop) (obj : name) (g : groups) : Prop :=
   forall k os o, In (k, os) g -> In o os ->
-    exists e, EF s e /\ fe_key e = k /\ occ_of e = o /\ pt_ok obj (fe_pt e).
+    exists e, Q e /\ fe_key e = k /\ occ_of e = o /\ pt_ok obj (fe_pt e).
 
-Lemma collect_inv : forall (s : fset) obj fuel vars pt sels visited g g' v',
-  (forall e, EF (pt, sels) e -> EF s e) ->
+Lemma collect_inv : forall (Q : fentry -> Prop) obj fuel vars pt sels visited g g' v',
+  (forall e, EF (pt, sels) e -> Q e) ->
   pt_ok obj pt ->
-  ginv s obj g ->
+  ginv Q obj g ->
   collect fuel S D vars obj sels visited g = Some (g', v') ->
-  ginv s obj g'.
+  ginv Q obj g'.
 Proof.
-  intros s obj fuel. induction fuel as [|f IH]; intros vars pt sels visited g g' v' Hsub Hpt Hg H;
+  intros Q obj fuel. induction fuel as [|f IH]; intros vars pt sels visited g g' v' Hsub Hpt Hg H;
     cbn [collect] in H; [discriminate|].
   destruct sels as [|x rest]; [inversion H; subst; exact Hg|].
-  assert (Hrest : forall e, EF (pt, rest) e -> EF s e).
+  assert (Hrest : forall e, EF (pt, rest) e -> Q e).
   { intros e He. apply Hsub. apply EF_tail. exact He. }
   destruct x as [id al nm args ds sub | id nm ds | id tc ds sub].
   - (* field *)
@@ -172,8 +172,8 @@ Theorem merge_safe_level : forall (s : fset) obj fuel vars visited g v,
     oc_name o1 = oc_name o2 /\ same_args (oc_args o1) (oc_args o2) = true.
 Proof.
   intros [pt sels] obj fuel vars visited g v HL Hpt Hc k os o1 o2 Hin H1 H2. simpl in *.
-  assert (Hg : ginv (pt, sels) obj g).
-  { apply (collect_inv (pt, sels) obj fuel vars pt sels visited [] g v); auto.
+  assert (Hg : ginv (EF (pt, sels)) obj g).
+  { apply (collect_inv (EF (pt, sels)) obj fuel vars pt sels visited [] g v); auto.
     intros k' os' o [] . }
   destruct (Hg k os o1 Hin H1) as [a [Ha [Ka [Oa Pa]]]].
   destruct (Hg k os o2 Hin H2) as [b [Hb [Kb [Ob Pb]]]].
@@ -185,5 +185,86 @@ Proof.
   apply andb_true_iff in Hna. destruct Hna as [Hn Harg]. apply String.eqb_eq in Hn.
   try subst o1; try subst o2. simpl. split; assumption.
 Qed.
+
+(* ---- the merged sub-selections, recursively ---- *)
+Lemma collect_all_inv : forall (Q : fentry -> Prop) obj fuel vars (sets : list fset) visited g g',
+  (forall s, In s sets -> forall e, EF s e -> Q e) ->
+  (forall s, In s sets -> pt_ok obj (fst s)) ->
+  ginv Q obj g ->
+  collect_all fuel S D vars obj (map snd sets) visited g = Some g' ->
+  ginv Q obj g'.
+Proof.
+  intros Q obj fuel vars sets. induction sets as [|[pt sels] r IH]; intros visited g g' HQ Hpt Hg H; simpl in H.
+  - inversion H; subst. exact Hg.
+  - destruct (collect fuel S D vars obj sels visited g) as [[g1 v1]|] eqn:Ec; [|discriminate].
+    apply (IH v1 g1 g'); [| | |exact H].
+    + intros s Hs. apply HQ. right. exact Hs.
+    + intros s Hs. apply Hpt. right. exact Hs.
+    + apply (collect_inv Q obj fuel vars pt sels visited g g1 v1); [| |exact Hg|exact Ec].
+      * apply (HQ (pt, sels)). left. reflexivity.
+      * apply (Hpt (pt, sels)). left. reflexivity.
+Qed.
+
+(* "L1 for a union of sets": all entries satisfying Q with one response key are compatible *)
+Definition LU (Q : fentry -> Prop) : Prop :=
+  forall a b, Q a -> Q b -> fe_key a = fe_key b -> compat S D (base2 S) false a b.
+
+(* the entries that can be collected under response key k for the object type obj *)
+Definition group_entries (Q : fentry -> Prop) (obj : name) (k : name) (e : fentry) : Prop :=
+  Q e /\ fe_key e = k /\ pt_ok obj (fe_pt e).
+(* the fields of their merged sub-selections *)
+Definition sub_entries (Q : fentry -> Prop) (obj : name) (k : name) (e' : fentry) : Prop :=
+  exists e, group_entries Q obj k e /\ has_sub e = true /\ EF (subset_of e) e'.
+
+(* merge safety to depth n: what CollectFields groups under one key has one name and equal
+   arguments, and so, recursively, for the merged sub-selections of each group collected for
+   any object type obj' that the (static) types of the group's fields admit *)
+Fixpoint MS (n : nat) (Q : fentry -> Prop) (obj : name) : Prop :=
+  match n with
+  | O => True
+  | Datatypes.S n' =>
+    forall fuel vars (sets : list fset) visited g,
+      (forall s, In s sets -> forall e, EF s e -> Q e) ->
+      (forall s, In s sets -> pt_ok obj (fst s)) ->
+      collect_all fuel S D vars obj (map snd sets) visited [] = Some g ->
+      forall k os, In (k, os) g ->
+        (forall o1 o2, In o1 os -> In o2 os ->
+           oc_name o1 = oc_name o2 /\ same_args (oc_args o1) (oc_args o2) = true) /\
+        (forall obj', (forall e, group_entries Q obj k e -> has_sub e = true -> pt_ok obj' (sub_pt e)) ->
+                      MS n' (sub_entries Q obj k) obj')
+  end.
+
+Lemma LU_sub : forall Q obj k, LU Q -> LU (sub_entries Q obj k).
+Proof.
+  intros Q obj k H a' b' [ea [[Qa [Ka Pa]] [Sa Ha]]] [eb [[Qb [Kb Pb]] [Sb Hb]]] Hk.
+  assert (Hkk : fe_key ea = fe_key eb) by congruence.
+  pose proof (H ea eb Qa Qb Hkk) as C. inversion C as [fl a b Hbase Hrec]; subst.
+  unfold OverlapSpec.exf in Hrec. rewrite (not_excl obj ea eb Pa Pb) in Hrec. simpl in Hrec.
+  apply Hrec; [split; assumption | exact Ha | exact Hb | exact Hk].
+Qed.
+
+Theorem merge_safe_rec : forall n Q obj, LU Q -> MS n Q obj.
+Proof.
+  induction n as [|n IH]; intros Q obj HL; simpl; [exact I|].
+  intros fuel vars sets visited g HQ Hpt Hc k os Hin.
+  assert (Hg : ginv Q obj g).
+  { apply (collect_all_inv Q obj fuel vars sets visited [] g HQ Hpt); [|exact Hc]. intros k' os' o []. }
+  split.
+  - intros o1 o2 H1 H2.
+    destruct (Hg k os o1 Hin H1) as [a [Qa [Ka [Oa Pa]]]].
+    destruct (Hg k os o2 Hin H2) as [b [Qb [Kb [Ob Pb]]]].
+    assert (Hk : fe_key a = fe_key b) by congruence.
+    pose proof (HL a b Qa Qb Hk) as C. inversion C as [fl a' b' Hbase _]; subst.
+    unfold OverlapSpec.exf in Hbase. rewrite (not_excl obj a b Pa Pb) in Hbase. simpl in Hbase.
+    unfold base2 in Hbase. apply andb_true_iff in Hbase. destruct Hbase as [Hab _].
+    unfold base_ok in Hab. simpl in Hab. apply andb_true_iff in Hab. destruct Hab as [Hna _].
+    apply andb_true_iff in Hna. destruct Hna as [Hn Harg]. apply String.eqb_eq in Hn.
+    try subst o1; try subst o2. simpl. split; assumption.
+  - intros obj' _. apply IH. apply LU_sub. exact HL.
+Qed.
+
+(* for a selection set of the document that passes L1 *)
+Corollary merge_safe_set : forall n (s : fset) obj, L1 S D (base2 S) s -> MS n (EF s) obj.
+Proof. intros n s obj H. apply merge_safe_rec. exact H. Qed.
 
 End Merge.
